@@ -106,6 +106,27 @@ func vrfModelReplace2(s string, a, b byte, to string) string {
 	return out
 }
 
+// stub for swag.ToJSONName: the words of s (separated by blanks) joined, every word but the first capitalised (ASCII).
+// The real mangler also lower-cases the first word and upper-cases initialisms; the harnesses that reach it only
+// depend on the result being some name (structure, not spelling, is asserted).
+func vrfModelJSONName(s string) string {
+	out := ""
+	up := false
+	for i := 0; i < len(s); i++ {
+		c := s[i]
+		if c == ' ' {
+			up = out != ""
+			continue
+		}
+		if up && c >= 'a' && c <= 'z' {
+			c -= 32
+		}
+		up = false
+		out += string([]byte{c})
+	}
+	return out
+}
+
 // jsonpointer.Unescape: ReplaceAll("~1","/") then ReplaceAll("~0","~")
 func vrfModelUnescape(s string) string {
 	return vrfModelReplace2(vrfModelReplace2(s, '~', '1', "/"), '~', '0', "~")
